@@ -29,11 +29,16 @@ static std::string veto;      // the guard callback (e.g. "I2.entryGuard") that 
 	void exitGuard(GuardControl& c) { t(N ".exitGuard"); if (veto == N ".exitGuard") c.cancelPendingTransition(); } void exit(PlanControl&) { t(N ".exit"); }
 struct I1 : FSM::State { CB("I1") }; struct I2 : FSM::State { CB("I2") }; struct I3 : FSM::State { CB("I3") };
 #ifndef PEER
+#ifdef SPARSE_HEAD
+// a head that defines only one of the two plan outcome callbacks (non-verbose logging decides per callback whether the class defines it)
+struct R : FSM::State { void planFailed(FullControl&) { t("R.planFailed"); } };
+#else
 struct R : FSM::State { void planSucceeded(FullControl&) { t("R.planSucceeded"); } void planFailed(FullControl&) { t("R.planFailed"); } };
+#endif
 #endif
 struct A : FSM::StateT<I1, I2, I3> { CB("A")
 	void query(Ev&, ConstControl&) const { t("A.query"); } };
-struct B : FSM::State { void update(FullControl& c) { t("B.update"); c.changeTo<A>(); c.fail(); } void entryGuard(GuardControl& c) { t("B.entryGuard"); (void) c; } };
+struct B : FSM::State { void update(FullControl& c) { t("B.update"); c.changeTo<A>(); c.succeed(ffsm2::StateID{0}); c.fail(); } void entryGuard(GuardControl& c) { t("B.entryGuard"); (void) c; } };
 struct Log : FSM::Instance::Logger {
 	void recordMethod(const ffsm2::EmptyContext&, const StateID o, const Method m) override { t("LOG:" + std::to_string(o == ffsm2::INVALID_STATE_ID ? -1 : o) + ":" + ffsm2::methodName(m)); }
 	void recordTransition(const ffsm2::EmptyContext&, const StateID o, const StateID d) override { t("LOGT:" + std::to_string(o == ffsm2::INVALID_STATE_ID ? -1 : o) + ">" + std::to_string(d)); }
@@ -95,6 +100,7 @@ int main() {
 #ifndef PEER
 			tr.clear(); m.plan().change<B, A>(); m.update();
 			if (withLogger && (pos("LOGT:1>0") < 0 || pos("LOGS:1:1") < 0)) return fail("changeTo / fail from a callback not recorded");
+			if (withLogger && pos("LOGS:0:0") < 0) return fail("succeed(0) called by state 1 is not recorded as a success of state 0");
 			if (pos("R.planFailed") < 0) return fail("planFailed not delivered");
 			if (withLogger && pos("LOG:-1:planFailed") != pos("R.planFailed") - 1) return fail("planFailed delivery is not preceded by a planFailed method record");
 #else
